@@ -19,35 +19,6 @@ theorem source_shape :
     Gen.appResetsHasErrored = true ∧ Gen.appFinallyTeardown = true ∧ Gen.appCloseFrameToTeardown = true ∧
     Gen.appDisconnectSetsErrored = true ∧ Gen.appDisconnectStopsPing = true := by decide
 
-/-- what a run that returned looks like (from `runBody_spec`) -/
-theorem returned_spec (c : Cfg) (hco : CloseOk c) (s0 : St) (b : Bool)
-    (h : (runForeverO c s0).2 = .returned b) :
-    Qst ((runBody c (prologue s0)).1) ∧
-    (runForever c s0).trace = (runBody c (prologue s0)).1.trace ++ [((runBody c (prologue s0)).1.now, .returned b)] ∧
-    b = (runBody c (prologue s0)).1.hasErrored ∧
-    ∃ δ1 a, cbs (runBody c (prologue s0)).1 = cbs s0 ++ δ1 ++ onCloseEv c a ∧ closesIn δ1 = 0 ∧
-      (ErrOk c → (runBody c (prologue s0)).1.hasErrored = errsIn δ1) := by
-  unfold runForever
-  unfold runForeverO at h ⊢
-  split at h
-  · simp at h
-  · split at h
-    · simp at h
-    · rename_i h1 h2
-      simp only [h1, h2, ↓reduceIte] at h ⊢
-      have sp := runBody_spec c hco (prologue s0) rfl (fun _ => by simp [prologue])
-      rcases hx : runBody c (prologue s0) with ⟨s1, r1⟩
-      rw [hx] at sp h
-      cases r1 with
-      | halt => simp at h
-      | exc e => simp at h
-      | ok u =>
-        cases u
-        simp only [Outcome.returned.injEq] at h
-        rcases sp with sp | ⟨q, _, δ1, a, hc, hcl, hl⟩
-        · simp [R.isHalt] at sp
-        · exact ⟨q, by simp [St.emit, h], h.symm, δ1, a, hc, hcl, hl⟩
-
 /-- **C14_once_last** — however the run ends (every world, every callback plan in which the on_close
     handler itself does not fail, every schedule, any settings): if run_forever returns, on_close has been
     called exactly once during the run and no callback of any kind comes after it. -/
@@ -81,25 +52,8 @@ theorem C14_return_value (c : Cfg) (hco : CloseOk c) (heo : ErrOk c) (s0 : St) (
     ping thread is gone and the keepalive clocks are reset. -/
 theorem C14_clean (c : Cfg) (hco : CloseOk c) (s0 : St) (b : Bool) (h : (runForeverO c s0).2 = .returned b) :
     (runForever c s0).sock = none ∧ (runForever c s0).ping = none ∧ (runForever c s0).keepRunning = false ∧
-    (runForever c s0).lastPing = 0 ∧ (runForever c s0).lastPong = 0 := by
-  obtain ⟨q, _, _, _⟩ := returned_spec c hco s0 b h
-  have hs : runForever c s0 = ((runBody c (prologue s0)).1).emit (.returned (runBody c (prologue s0)).1.hasErrored) := by
-    unfold runForever
-    unfold runForeverO at h ⊢
-    split at h
-    · simp at h
-    · split at h
-      · simp at h
-      · rename_i h1 h2
-        simp only [h1, h2, ↓reduceIte] at h ⊢
-        rcases hx : runBody c (prologue s0) with ⟨s1, r1⟩
-        rw [hx] at h
-        cases r1 with
-        | halt => simp at h
-        | exc e => simp at h
-        | ok u => rfl
-  rw [hs]
-  exact ⟨q.sk, q.pg, q.kr, q.lp, q.lq⟩
+    (runForever c s0).lastPing = 0 ∧ (runForever c s0).lastPong = 0 :=
+  returned_clean c hco s0 b h
 
 /-- the fields of the app object that `run_forever` and its helpers read -/
 def control (s : St) : Bool × Option WSock × Bool × Bool × Option PingTh × Nat × Nat :=
@@ -114,13 +68,6 @@ theorem C14_rerun (c : Cfg) (hco : CloseOk c) (s0 : St) (b : Bool) (h : (runFore
   obtain ⟨h1, h2, _, h4, h5⟩ := C14_clean c hco s0 b h
   refine ⟨by simp [h1], ?_⟩
   simp [control, prologue, h1, h2, h4, h5]
-
-/-- terminating events of a connection, as the property lists them -/
-def endsBy (te : TEv) : Prop :=
-  te.ev = .eof ∨ te.ev = .reset ∨ te.ev = .protoError ∨ te.ev = .payloadError ∨ ∃ b, te.ev = .close b
-
-theorem endsBy_isTerm {te : TEv} (h : endsBy te) : isTerm te.ev = true := by
-  rcases h with h | h | h | h | ⟨b, h⟩ <;> simp [h, isTerm]
 
 /-- **C14_terminates** (one connection) — for every legal traffic history followed by a terminating event
     (close frame with or without body, end of stream, reset, protocol or payload error), callbacks that
